@@ -128,11 +128,11 @@ Print Assumptions C02_fixpoint_text_calm.
 
 Theorem C02_calm_line :
   forall (ctx : titles) (dir : string) (o : opts) (l : list inline),
-         forallb (calm ctx o) l = true -> line_md_stable ctx dir o l = true.
+         forallb (calm ctx dir o) l = true -> line_md_stable ctx dir o l = true.
 Proof. exact ReparseCalm.calm_line. Qed.
 Check C02_calm_line :
   forall (ctx : titles) (dir : string) (o : opts) (l : list inline),
-         forallb (calm ctx o) l = true -> line_md_stable ctx dir o l = true.
+         forallb (calm ctx dir o) l = true -> line_md_stable ctx dir o l = true.
 Print Assumptions C02_calm_line.
 
 Theorem C02_settled_fixed :
